@@ -1802,7 +1802,16 @@ pub fn random_case(rng: &mut Rng) -> Vec<u64> {
         }
         40..=41 => noise_random(rng),
         42..=43 => codec_random(rng),
-        44 => select_random(rng),
+        44 => {
+            if rng.chance(60) {
+                select_random(rng)
+            } else {
+                // the consumer of a negotiated protocol name: ProtocolSet lookups (C03 modes 5 / 6)
+                let mut c = vec![16];
+                c.extend(super::ext::x03::gen_lookup(rng));
+                c
+            }
+        }
         45 => c1(21, &yamux_stream(rng)),
         46..=49 => {
             let max = rng.pick(&[64u64, 1024, 70 * 1024]);
